@@ -197,12 +197,32 @@ def _run_one(args):
             if not isinstance(r, Result):
                 raise HarnessError("run_shard did not return a Result")
             out = (idx, r, None)
-        except Exception:
-            out = (idx, None, traceback.format_exc())
+        except Exception as e:
+            lr = _library_exception(e, shard)
+            out = (idx, lr, None) if lr is not None else (idx, None, traceback.format_exc())
     if out[1] is not None:
         for v in out[1].viols:
             v.setdefault("shard", shard)  # the history that reached the violation (for history-faithful replay)
     return out
+
+
+def _library_exception(exc, shard):
+    """an exception that escapes run_shard from inside the code under test (innermost frame in the repository) is the
+    library failing on an input of the alphabet, not a harness fault: it becomes a violation whose replay is the shard"""
+    tb = exc.__traceback__
+    last = None
+    while tb is not None:
+        last = tb
+        tb = tb.tb_next
+    if last is None or isinstance(exc, HarnessError):
+        return None
+    fn = os.path.realpath(last.tb_frame.f_code.co_filename)
+    if not fn.startswith(os.path.realpath(REPO) + os.sep):
+        return None
+    r = Result()
+    r.viol({"crashed_shard": shard}, "the library raised %r at %s:%d (%s) on an input of this shard's alphabet"
+           % (exc, os.path.relpath(fn, os.path.realpath(REPO)), last.tb_lineno, last.tb_frame.f_code.co_name), kind="raise-" + type(exc).__name__)
+    return r
 
 
 def _run_one_isolated(idx, shard):
@@ -218,8 +238,9 @@ def _run_one_isolated(idx, shard):
             if not isinstance(r, Result):
                 raise HarnessError("run_shard did not return a Result")
             child.send((idx, r, None))
-        except Exception:
-            child.send((idx, None, traceback.format_exc()))
+        except Exception as e:
+            lr = _library_exception(e, shard)
+            child.send((idx, lr, None) if lr is not None else (idx, None, traceback.format_exc()))
         finally:
             child.close()
 
@@ -587,8 +608,14 @@ def main(argv=None):
         try:
             if isinstance(body["case"], dict) and "crashed_shard" in body["case"]:
                 _MOD = mod
-                r = mod.run_shard(body["case"]["crashed_shard"])  # dies again if the crash is still there
-                msgs = [v["msg"] for v in r.viols]
+                try:
+                    r = mod.run_shard(body["case"]["crashed_shard"])  # dies again if the crash is still there
+                    msgs = [v["msg"] for v in r.viols]
+                except Exception as e:
+                    lr = _library_exception(e, body["case"]["crashed_shard"])
+                    if lr is None:
+                        raise
+                    msgs = [v["msg"] for v in lr.viols]
             else:
                 msgs = mod.replay(body["case"])
             if not msgs and "crashed_shard" not in (body["case"] if isinstance(body["case"], dict) else {}) and body.get("shard") is not None:
